@@ -40,7 +40,7 @@ def alphabet():
     ]
 
 
-OPS = ["upd", "addb-doc", "addb-noid", "addb-dup", "addb-dup-string", "addb-bundle", "addb-bundle-as", "addb-unresolvable", "read-then-assert-type", "flat"]
+OPS = ["upd", "addb-doc", "addb-noid", "addb-dup", "addb-dup-string", "addb-bundle", "addb-bundle-as", "addb-unresolvable", "read-then-assert-type", "addb-bundle-of-another-document-as-string", "flat"]
 
 
 def to_model(doc):
@@ -167,6 +167,22 @@ class C09(spec.Spec):
                     # the requested identifier denotes nothing (its prefix is declared nowhere): no identifier
                     expect_refusal = True
                     d.add_bundle(ProvBundle(records=o.get_records()), "nosuchprefix9:b")
+                elif op == "addb-bundle-of-another-document-as-string":
+                    # a bundle made by a third document that declares what `other` declares, attached to d under an
+                    # identifier given as a string: the string means what it means in d (asked of d itself just before:
+                    # resolving a string registers nothing)
+                    t = ProvDocument(namespaces=list(o.namespaces))
+                    if o.get_default_namespace() is not None:
+                        t.set_default_namespace(o.get_default_namespace().uri)
+                    b = t.bundle(QualifiedName(Namespace("bn", NB[0]), "made-elsewhere"))
+                    b.entity(QualifiedName(Namespace("bn", NB[0]), "inside"))
+                    meant = d.valid_qualified_name("ex:attached")
+                    if meant is None or meant.uri in M[1]:
+                        expect_refusal = True
+                    else:
+                        M[1][meant.uri] = [(machine.PROV_URI + "Entity", NB[0] + "inside", ())]
+                        nontrivial = True
+                    d.add_bundle(b, "ex:attached")
                 elif op == "read-then-assert-type":
                     # every record of d is read (hashed, compared, its attributes listed), then one of them gets a
                     # further type through add_asserted_type(); what is copied later must include it
